@@ -20,7 +20,7 @@ func init() {
 		Rule: "one Handler (New / NewByCh with capacity 0,1,3,8) or an Actor spawn tree (depth <= 3, New / NewByOptions) and 1..8 (thorough 1..16) sender threads each posting a numbered sequence to one or several mailboxes; " +
 			"posted functions / effects log begin, yield, end; Close at the end followed by late Post/Send; oracles: exactly-once by the fair settle horizon, no overlap per mailbox, per-sender order, " +
 			"effect receives its own actor, parent/child registry, no cross-delivery, nothing submitted after Close runs; non-trivial = >=2 senders interleaved on one mailbox; distinct = distinct context-switch signature" +
-			" Flavours: messages submitted through unawaited AskChannel or AskOnceWithTimeout(<=0), Close while senders are active, an actor closing itself from inside its effect while senders are blocked or a backlog is buffered, the default Handler (package init re-run inside the simulation), the closed default Actor and orphans spawned from closed parents.",
+			" Flavours: messages submitted through unawaited AskChannel or AskOnceWithTimeout(<=0), Close while senders are active, a handler / an actor closed from inside (by a posted function / by the effect) while senders are blocked or a backlog is buffered, the default Handler (package init re-run inside the simulation), the closed default Actor and orphans spawned from closed parents.",
 		Real:        []string{"fpgo.HandlerDef (run goroutine)", "fpgo.ActorDef (run goroutine, Spawn, registry)"},
 		Stub:        []string{"goroutine scheduler", "clock (advanced by >=1ns before each Spawn: actor ids are time.Now())", "posted functions / effects"},
 		Assumptions: []string{"actor ids are time.Now(); the harness advances the fake clock by 1ns before each actor creation (a real monotonic clock never returns the same reading twice to one goroutine)"},
@@ -113,9 +113,9 @@ func genC12(t *simrt.Tape, tier string) Scenario {
 		// returned before Close was invoked must still be processed exactly once
 		sc.Early = true
 		sc.EarlyD = t.Choose(16)
-	} else if sc.Kind == "actor" && sc.nMailbox == 1 && t.Bool(1, 3) {
-		// ... or the actor closes itself from inside its effect while processing one of the messages
-		// (senders may be blocked in Send at that moment, a backlog may be buffered)
+	} else if sc.nMailbox == 1 && t.Bool(1, 3) {
+		// ... or the mailbox is closed from inside: by a posted function (handler) / by the effect (actor) while it
+		// processes one of the items (senders may be blocked at that moment, a backlog may be buffered)
 		sc.Early = true
 		sc.SelfClose = true
 		total := 0
@@ -146,6 +146,11 @@ func (sc *c12Scenario) Run(s *simrt.Sim) {
 			s.Yield()
 		}
 		it.ends = append(it.ends, s.Stamp())
+		if sc.SelfClose && it.id == sc.SelfCloseItem && sc.closeInv == 0 && doClose != nil {
+			// the mailbox is closed from inside: by the posted function / by the effect handling this message
+			doClose("mailbox-goroutine")
+			sc.probes["mailbox-closed-from-inside"]++
+		}
 	}
 	var submit func(name string, it *c12Item)
 	var closeAll func()
@@ -199,10 +204,6 @@ func (sc *c12Scenario) Run(s *simrt.Sim) {
 			}
 			if msg >= 0 && msg < len(sc.items) {
 				work(sc.items[msg], me)
-			}
-			if sc.SelfClose && msg == sc.SelfCloseItem && sc.closeInv == 0 && doClose != nil {
-				doClose("effect")
-				sc.probes["actor-closed-from-inside-its-effect"]++
 			}
 		}
 		for i, p := range sc.Tree {
